@@ -346,6 +346,20 @@ def r1_rules(rep, prog, decided=()):
     rep.count("r1_uses", sum(n.values()))
 
 
+def _exact_extent(sides):
+    """`data.len() == <extent>`: one side is the length of the backing store, the OTHER is computed from the view's own dims (w * h) and
+    from no other length — `self.data.len() == other.data.len()` compares two stores, each of which may hold row padding"""
+    is_len = lambda x: x[0] == "call" and x[1].split(" => ")[0].endswith("<impl [T]>::len") and has_data(x)  # noqa: E731
+    for x, y in (sides, sides[::-1]):
+        if not is_len(x):
+            continue
+        from_dims = T.contains(y, lambda s: s[0] == "field" and s[2] == "Inner.dims") or T.calls_in(y, "Inner::<T, D>::width") \
+            or T.calls_in(y, "Inner::<T, D>::height")
+        if from_dims and not T.calls_in(y, "<impl [T]>::len"):
+            return True
+    return False
+
+
 def whole_store_ok(prog, b, sl, bi, t, meth):
     """chunks/chunks_mut: the iterator must be cut to `height` rows before it escapes;
     fill & co: must be guarded by an exact-extent check."""
@@ -368,7 +382,7 @@ def whole_store_ok(prog, b, sl, bi, t, meth):
     for d, taken in conds:
         if d[0] == "bin" and d[1] in ("Eq",) and taken:
             sides = (T.strip(d[2], refs=True, casts=True), T.strip(d[3], refs=True, casts=True))
-            if any(x[0] == "call" and x[1].split(" => ")[0].endswith("<impl [T]>::len") and has_data(x) for x in sides):
+            if _exact_extent(sides):
                 return True, "guarded by an exact data.len() == extent check"
     # the same, path-sensitively: the check may have been evaluated into a flag first (`let covers = a && b; if !covers {..} else {HERE}`)
     fa = b.facts_at(bi)
@@ -377,7 +391,7 @@ def whole_store_ok(prog, b, sl, bi, t, meth):
         d = sl.rvalue(st_["rv"], 0, ())
         if d[0] == "bin" and d[1] == "Eq" and truth:
             sides = (T.strip(d[2], refs=True, casts=True), T.strip(d[3], refs=True, casts=True))
-            if any(x[0] == "call" and x[1].split(" => ")[0].endswith("<impl [T]>::len") and has_data(x) for x in sides):
+            if _exact_extent(sides):
                 return True, "guarded by an exact data.len() == extent check (held in a flag)"
     guard = [T.show(d)[:60] + ("" if tk else " (false)") for d, tk in conds]
     return False, "guarded only by %s" % (guard or "nothing")
